@@ -293,6 +293,26 @@ class Resolver:
             if expr.id in env:
                 t = env[expr.id]
                 return [Target("value", expr.id, recv_type=t)]
+            # a local bound once to a function reference (possibly a
+            # conditional expression of references)
+            fdefs = self._all_defs(fn, expr.id)
+            if fdefs:
+                refs: list[ast.AST] = []
+                for d in fdefs:
+                    r = self._function_refs(d)
+                    if not r:
+                        refs = []
+                        break
+                    refs += r
+                if refs:
+                    out: list[Target] = []
+                    for r in refs:
+                        if isinstance(r, ast.Name) and r.id == expr.id:
+                            continue
+                        out += self.resolve_ref(fn, r)
+                    if out and all(t.kind in ("internal", "class", "external")
+                                   for t in out):
+                        return out
             q = self.repo.qualify(mod, expr)
             if q is not None:
                 return [self._target_of_name(q)]
@@ -353,6 +373,43 @@ class Resolver:
                             return out
                 return [self._target_of_name(q)]
         return [Target("unknown", short(expr, 60))]
+
+    def _all_defs(self, fn: FunctionInfo, name: str) -> list[ast.AST]:
+        """Values of all plain assignments to the local `name`; [] when it
+        is also bound in another way (parameter, loop target, ...)."""
+        if name in fn.params():
+            return []
+        out: list[ast.AST] = []
+        for n in fn.body_nodes():
+            tgts: list[ast.AST] = []
+            val = None
+            if isinstance(n, ast.Assign):
+                tgts, val = n.targets, n.value
+            elif isinstance(n, ast.AnnAssign):
+                tgts, val = [n.target], n.value
+            elif isinstance(n, (ast.For, ast.AsyncFor, ast.AugAssign)):
+                tgts, val = [n.target], None
+            elif isinstance(n, (ast.With, ast.AsyncWith)):
+                tgts = [i.optional_vars for i in n.items if i.optional_vars]
+            for t in tgts:
+                if isinstance(t, ast.Name) and t.id == name:
+                    if val is None:
+                        return []
+                    out.append(val)
+                elif any(isinstance(x, ast.Name) and x.id == name
+                         for x in ast.walk(t)):
+                    return []
+        return out
+
+    @staticmethod
+    def _function_refs(e: ast.AST) -> list[ast.AST]:
+        if isinstance(e, ast.IfExp):
+            a = Resolver._function_refs(e.body)
+            b = Resolver._function_refs(e.orelse)
+            return a + b if a and b else []
+        if isinstance(e, ast.Attribute) or (isinstance(e, ast.Name)):
+            return [e]
+        return []
 
     def resolve_ref_in_module(self, mod: Module, expr: ast.AST) -> list[Target]:
         q = self.repo.qualify(mod, expr)
